@@ -20,7 +20,7 @@ A scenario is a JSON-able dict (see futb_model.scenario_to_coq for the same data
   ps       None (SimpleStatement) | [id, qs, ks|None]   (BoundStatement of that prepared statement)
   known    [[id, qs, ks|None], ...]   contents of cluster._prepared_statements
   script   [[decision 0..3, cl|None], ...]  decisions returned by the retry policy, by consultation number
-  ops      ['page', plan] (fetch the next page; plan = the load balancer's plan for that fetch) | ['start'] | ['start', 'spec_in_borrow'] (speculative timer fires inside the first borrow_connection; same model op)
+  ops      ['shutdown'] (Session.shutdown(): follow-up work is refused from now on) | ['page', plan] (fetch the next page; plan = the load balancer's plan for that fetch) | ['start'] | ['start', 'spec_in_borrow'] (speculative timer fires inside the first borrow_connection; same model op)
            | ['resp', attempt_index, resp] | ['run', k] | ['spec'] | ['pool', h, st] | ['ks', k|None]
   resp     [8] rows with a paging state (more pages) | [0] rows | [1] void | [2,id] prepared | [3,kind,tag] retryable error | [4,id,tag] unprepared
            | [5,tag] other ErrorMessage | [6,tag] other exception | [7] junk
@@ -97,6 +97,7 @@ class Env(object):
         self.defuncts = 0
         self.registry = {}      # id(response object) -> canonical
         self.nha_snap = {}
+        self.shut = False       # Session.shutdown() happened
         self.conns = []         # every fake connection ever created (a reconnect makes a new one)
         self.fire_in_borrow = False
         self.keep = []          # keep response objects alive (ids stay unique)
@@ -323,7 +324,12 @@ def make_session_class():
             return ksname(self.env.keyspace)
 
         def submit(self, fn, *args, **kwargs):
-            self.env.queue.append((fn, args, kwargs))
+            # like Session.submit: runs nothing and returns None once the session is shut down, else the executor's future
+            if self.env.shut:
+                return None
+            task = (fn, args, kwargs)
+            self.env.queue.append(task)
+            return task
     return FakeSession
 
 
@@ -423,6 +429,8 @@ def classify_exc(env, hosts, e):
         return [7]
     if isinstance(e, d['C'].ConnectionException) and 'Got unexpected' in str(e):
         return [8]
+    if isinstance(e, d['C'].ConnectionShutdown) and 'Session is shut down' in str(e):
+        return [11]
     if isinstance(e, AssertionError):
         return [9]
     if isinstance(e, AttributeError):
@@ -646,6 +654,8 @@ class Run(object):
                 self.session._pools.pools[self.hosts[op[1]]].reconnect()    # a replaced connection: stream ids start at 0 again
         elif k == 'ks':
             env.keyspace = op[1]
+        elif k == 'shutdown':
+            env.shut = True
         elif k == 'page':
             # ResultSet.fetch_next_page -> ResponseFuture.start_fetching_next_page; op[1] = the load balancer's plan for this fetch
             self.lb.plan = list(op[1])
